@@ -11,6 +11,19 @@ def gen(ctx):
     for _ in range(ctx.n(300, 3000)):
         c = c04.rand_case(rng, memos=["True", "recursive_lit"], maxdim=7)
         yield c
+    for _ in range(ctx.n(80, 800)):
+        # float states incl. negatives under the von Neumann mask: the key must not see the masked corners (not even their sign)
+        c = c04.rand_case(rng, memos=["True"], maxdim=6)
+        c["nb"] = "vn"
+        c["dtype"], c["scale"] = rng.choice(["float64", "float32"]), 4
+        k = rng.randint(2, 3)
+        c["rule"] = "hash:%d:%d:%d:-1" % (k, rng.choice([2, 3]), rng.randint(0, 2))
+        R, C = len(c["hist"][-1]), len(c["hist"][-1][0])
+        c["hist"] = [[[rng.choice([-1, -1, 0, 1]) for _ in range(C)] for _ in range(R)]]
+        c["r"] = min(max(1, c["r"]), R, C)
+        c.pop("pred", None)
+        c["T"] = rng.randint(2, 4)
+        yield c
 
 
 def line(c):
